@@ -80,7 +80,9 @@ def make_substances(rng, n=None, fixtures=True):
         i += 1
         k = kinds[(i + rng.randrange(3)) % 3] if rng.random() < 0.7 else rng.choice(kinds)
         if k == 'solid':
-            out.append(S.solid(f'sol{i}', round(10 ** rng.uniform(1, 3), rng.randint(0, 4))))
+            # mostly small molecules; now and then a macromolecule (tens of kDa: micromoles weigh grams)
+            mw = 10 ** rng.uniform(1, 3) if rng.random() < 0.88 else 10 ** rng.uniform(3.5, 5.2)
+            out.append(S.solid(f'sol{i}', round(mw, rng.randint(0, 4))))
         elif k == 'liquid':
             out.append(S.liquid(f'liq{i}', round(10 ** rng.uniform(1, 2.7), rng.randint(0, 4)),
                                 round(rng.uniform(0.5, 2.0), rng.randint(1, 4))))
@@ -360,7 +362,10 @@ class World:
         if k and not any(s.is_liquid() for s in chosen) and rng.random() < 0.7:
             chosen[0] = rng.choice(liquids(self.subs))
             chosen = list(dict.fromkeys(chosen))
-        scale = scale or 10 ** rng.uniform(-4, 0)       # litres-ish scale of the vessel
+        if scale is None:
+            r_ = rng.random()
+            # litres-ish scale of the vessel: 0.1 mL .. 1 L as a rule, droplets (0.1 uL ..) and carboys (.. 100 L) at times
+            scale = 10 ** (rng.uniform(-4, 0) if r_ < 0.86 else rng.uniform(-7, -4) if r_ < 0.95 else rng.uniform(0, 2))
         init = []
         vol = 0.0
         for s in chosen:
@@ -375,6 +380,8 @@ class World:
                 base = 'U' if s.is_enzyme() else 'g'
             # target volume share
             v_l = scale * rng.uniform(0.02, 0.5)
+            if rng.random() < 0.1:
+                v_l = scale * 10 ** rng.uniform(-9, -5)         # a trace component
             perL = R.per(s, 'L')
             canon = v_l / perL if perL > 0 else scale * rng.uniform(0.1, 10)
             val = canon * R.per(s, base)
